@@ -317,6 +317,20 @@ func (i *Inst) runFrontStep(s *FrontScript, tw *TraceWriter, rng *rand.Rand, jar
 		set("basic", true, true, "7")
 		ev["free"] = true
 		one(az("Basic "+b64("7:pw-7")), az("Basic !!!!"))
+	case "two-good-then-otheruser":
+		// the first header is confirmed; a second one names another user with a wrong password: the request may be
+		// served or refused, but never as that other user
+		set("basic", true, true, "7")
+		ev["free"] = true
+		one(az("Basic "+b64("7:pw-7")), az("Basic "+b64("8:not-the-password")))
+	case "two-wrong-then-good":
+		set("basic", true, true, "8")
+		ev["free"] = true
+		one(az("Basic "+b64("7:not-the-password")), az("Basic "+b64("8:pw-8")))
+	case "three-good-then-others":
+		set("basic", true, true, "7")
+		ev["free"] = true
+		one(az("Basic "+b64("7:pw-7")), az("Basic "+b64("8:nope")), az("Basic "+b64("root:toor")))
 	case "ntlm-right":
 		set("ntlm", true, true, "nuser1")
 		goodNTLM("NTLM", "nuser1", i.Users["nuser1"], false)
